@@ -491,38 +491,77 @@ def posteriors(ck):
                     ck.fail("vmf-responsibilities/%s/argmax" % tag, "most probable component differs from the arg-max of weight * density", dict(rep, i=i))
 
     # ---- Segmentation.normalized_external_field, map_from_ppm
-    N = ck.n(25, 200)
+    # outliers: one in-mask voxel at 12 .. 1e4 class standard deviations from every class mean while the other voxels fit
+    # well (the soft-max must be stabilised PER VOXEL); masks; beta = 0 (Python path) and beta > 0 (mrf.c path)
+    N = ck.n(30, 240)
     for ci in range(N):
         K = int(rng.integers(1, 4))
         nch = int(rng.integers(1, 3))
         shape = (2, 2, 2) if nch == 1 else (2, 2, 2, nch)
         data = rng.integers(-3, 4, shape).astype(float)
-        far = rng.random() < 0.4
+        far = ci % 5 in (1, 3)
+        dist = 0.0
         if far:
-            data[(0, 0, 0)] = 1e4
+            dist = float([12, 30, 45, 64, 100, 1000, 1e4][(ci // 5) % 7])
+            data[(0, 0, 0)] = dist * 2.0                     # sigma <= 3 < 4: at least `dist` standard deviations away
         mu = rng.integers(-2, 3, (K, nch)).astype(float)
         sigma = np.array([np.eye(nch) * float(rng.integers(1, 4)) for _ in range(K)])
-        seg = Segmentation(data, mu=mu, sigma=sigma, beta=0.25, ngb_size=6)
+        mask = None
+        if ci % 3 == 2:
+            mask = rng.random((2, 2, 2)) < 0.7
+            mask[0, 0, 0] = True
+        beta = [0.25, 0.0, 1.0][ci % 3 if ci % 4 else 0]
+        seg = Segmentation(data, mask=mask, mu=mu, sigma=sigma, beta=beta, ngb_size=6 if ci % 2 else 26)
         with np.errstate(all="ignore"):
             lef = seg.log_external_field()
             nef = seg.normalized_external_field()
-        ck.count(("nef", data.tobytes(), mu.tobytes(), sigma.tobytes()), bucket="nef:far" if far else "nef:near")
-        rep = {"data": data.tolist(), "mu": mu.tolist(), "sigma": sigma.tolist()}
+        fclass = "near" if not far else ("outlier<=30sd" if dist <= 30 else "outlier>=45sd")
+        ck.count(("nef", data.tobytes(), mu.tobytes(), sigma.tobytes(), beta, None if mask is None else mask.tobytes()),
+                 bucket="nef:%s:beta%s0" % (fclass, "=" if beta == 0 else ">"))
+        rep = {"data": data.tolist(), "mu": mu.tolist(), "sigma": sigma.tolist(), "beta": beta, "ngb_size": seg.ngb_size,
+               "mask": None if mask is None else mask.astype(int).tolist()}
         for i in range(nef.shape[0]):
             mx = float(np.max(lef[i]))
             e = np.exp(lef[i] - mx)
+            good = bool(finite(nef[i]) and abs(nef[i].sum() - 1) < 1e-12 and nef[i].min() >= 0)
+            if not good:
+                ck.fail("nef/row-sum/%s" % fclass, "normalized_external_field row %d = %s (log external field %s): not a point of the simplex" % (
+                    i, nef[i].tolist(), lef[i].tolist()), dict(rep, i=i))
+            # per-voxel definition: exp(lef - max of THIS row) / its sum, whatever the other voxels are
+            want = e / e.sum()
+            if good and np.max(np.abs(nef[i] - want)) > 1e-12:
+                ck.fail("nef/not-the-per-voxel-softmax/%s" % fclass, "normalized_external_field row %d = %s but softmax(log external field) = %s" % (
+                    i, nef[i].tolist(), want.tolist()), dict(rep, i=i))
             terms.append("Qeq_bool (lmax %s) %s && qlist_rel %s (normalize %s) %s" % (
-                cql(fl(lef[i])), cq(mx), cq(TOL), cql(fl(e)), cql(fl(nef[i]))))
+                cql(fl(lef[i])), cq(mx), cq(TOL), cql(fl(e)), cql(fl(np.nan_to_num(nef[i], nan=-1.0, posinf=-1.0, neginf=-1.0)))))
             meta.append(("nef-row", dict(rep, i=i)))
-            if not (finite(nef[i]) and abs(nef[i].sum() - 1) < 1e-12 and nef[i].min() >= 0):
-                ck.fail("nef/row-sum", "normalized_external_field row %d = %s" % (i, nef[i].tolist()), dict(rep, i=i))
-        seg.ve_step()
+        # a voxel's row must not depend on the OTHER voxels: the same object restricted to one voxel at a time
+        if seg.data.shape[0] > 1:
+            for i in sorted({0, nef.shape[0] - 1}):
+                one = np.zeros((2, 2, 2), bool)
+                one[tuple(seg.XYZ[i])] = True
+                s1 = Segmentation(data, mask=one, mu=mu, sigma=sigma, beta=beta, ngb_size=seg.ngb_size)
+                with np.errstate(all="ignore"):
+                    n1 = s1.normalized_external_field()[0]
+                if not (finite(n1) and finite(nef[i]) and np.max(np.abs(n1 - nef[i])) <= 1e-12):
+                    ck.fail("nef/row-depends-on-other-voxels/%s" % fclass,
+                            "normalized_external_field of voxel %s is %s in the image but %s when it is the only in-mask voxel" % (
+                                seg.XYZ[i].tolist(), nef[i].tolist(), n1.tolist()), dict(rep, i=i))
+        with np.errstate(all="ignore"):
+            seg.ve_step()
         q = seg.ppm[seg.mask]
         if not (finite(q) and np.max(np.abs(q.sum(1) - 1)) < 1e-12 and q.min() >= 0):
-            ck.fail("segmentation-ve_step/row-sum", "Segmentation.ve_step: ppm rows of in-mask voxels not on the simplex", rep)
+            ck.fail("segmentation-ve_step/row-sum/%s/beta%s0" % (fclass, "=" if beta == 0 else ">"),
+                    "Segmentation.ve_step: ppm rows of in-mask voxels not on the simplex: %s" % q.tolist(), rep)
         lab = seg.map()
         for idx in np.ndindex(lab.shape):
             row = seg.ppm[idx]
+            if not seg.mask[idx]:
+                if lab[idx] != 0:
+                    ck.fail("map_from_ppm/label-outside-mask", "Segmentation.map() labels a voxel outside the mask", dict(rep, voxel=list(idx)))
+                continue
+            if not finite(row):
+                continue                                     # reported by the simplex oracle above
             terms.append("Nat.eqb (map_from_ppm_row %s) %s" % (cql(fl(row)), cnat(int(lab[idx]))))
             meta.append(("map-from-ppm", dict(rep, voxel=list(idx))))
             if row[lab[idx] - 1] < row.max() or np.any(row[:lab[idx] - 1] >= row[lab[idx] - 1]):
@@ -1652,6 +1691,116 @@ def magnitudes(ck):
     ck.section("magnitudes", cases=N, model_terms=len(terms))
 
 
+# ------------------------------------------------------------------ Segmentation.vm_step / normalized_external_field (matrix)
+HDR_SEG = HDR + "From NV.Generated Require Import SegFrags.\nFrom NV.C13 Require Import SegModel.\n"
+
+
+def cqmat_q(M):
+    return clist([cql(fl(r)) for r in M])
+
+
+def segfit(ck):
+    """Segmentation.vm_step against SegModel.vm_class (weighted mean, centred weighted scatter, Z floor) and the oracles
+    of the equivariance theorems on the implementation; normalized_external_field against SegModel.nef_matrix."""
+    from nipy.algorithms.segmentation.segmentation import Segmentation
+    rng = ck.rng("segfit")
+    N = ck.n(36, 300)
+    terms, meta = [], []
+    tol = F(1, 10 ** 11)
+    for ci in range(N):
+        K = int(rng.integers(1, 4))
+        nch = int(rng.integers(1, 4)) if ci % 3 else 1
+        sp = [(2, 2, 2), (3, 2, 1), (1, 1, 2), (2, 3, 2)][ci % 4]
+        shape = sp if nch == 1 else sp + (nch,)
+        data = rng.integers(-24, 25, shape).astype(float) / [1.0, 4.0][ci % 2]
+        mask = None
+        if ci % 3 == 1:
+            mask = rng.random(sp) < 0.7
+            mask[(0,) * 3] = True
+        # posterior maps: rows k/16 on the simplex; classes without any mass (population 0) in every fourth case
+        raw = rng.integers(0, 5, sp + (K,)).astype(float)
+        empty = K > 1 and ci % 4 == 3
+        if empty:
+            raw[..., 0] = 0
+        raw[..., K - 1] += (raw.sum(-1) == 0)
+        ppm = np.floor(16 * raw / raw.sum(-1, keepdims=True)) / 16
+        ppm[..., K - 1] += 1 - ppm.sum(-1)
+        S = Segmentation(data, mask=mask, ppm=ppm.copy(), beta=0.2, ngb_size=6)
+        S.vm_step()
+        m = S.mask
+        chans = S.data.T                         # (nch, nvox)
+        rep = {"data": data.tolist(), "ppm": ppm.tolist(), "mask": None if mask is None else mask.astype(int).tolist()}
+        ck.count(("vm", data.tobytes(), ppm.tobytes(), None if mask is None else mask.tobytes()),
+                 bucket="vm_step:nch=%d:%s" % (nch, "empty-class" if empty else "all-classes-populated"))
+        for i in range(K):
+            P = ppm[..., i][m].ravel()
+            mu_i, sg_i = S.mu[i], S.sigma[i]
+            if not (finite(mu_i) and finite(sg_i)):
+                ck.fail("vm_step/non-finite", "Segmentation.vm_step: class %d mean %s covariance %s" % (i, mu_i.tolist(), sg_i.tolist()), dict(rep, cls=i))
+                continue
+            terms.append("vm_class_near %s %s %s %s %s" % (cq(tol), cql(fl(P)), cqmat_q(chans), cql(fl(mu_i)), cqmat_q(sg_i)))
+            meta.append(("vm_step-class", dict(rep, cls=i)))
+            # definition oracles (independent of Coq)
+            Zs = max(P.sum(), 1e-50)
+            wm = (chans * P).sum(1) / Zs
+            ws = ((chans.T - wm).T * P) @ (chans.T - wm) / Zs
+            if np.max(np.abs(mu_i - wm)) > 1e-11 or np.max(np.abs(sg_i - ws)) > 1e-10:
+                ck.fail("vm_step/not-the-weighted-moments/%s" % ("empty-class" if P.sum() == 0 else "populated"),
+                        "class %d: mean %s covariance %s but weighted mean %s centred weighted scatter %s" % (
+                            i, mu_i.tolist(), sg_i.tolist(), wm.tolist(), ws.tolist()), dict(rep, cls=i))
+            if np.max(np.abs(sg_i - sg_i.T)) > 1e-12 or np.min(np.diag(sg_i)) < 0:
+                ck.fail("vm_step/covariance-not-symmetric-nonneg", "class %d covariance %s" % (i, sg_i.tolist()), dict(rep, cls=i))
+        # theorem oracles on the implementation: per-channel translation (integers: exact data) and power-of-two scaling
+        off = rng.integers(-40, 41, nch).astype(float)
+        sc = np.array([2.0 ** int(e) for e in rng.integers(-6, 7, nch)])
+        pops = np.array([ppm[..., i][m].sum() for i in range(K)])
+        St = Segmentation(data + (off if nch > 1 else off[0]), mask=mask, ppm=ppm.copy(), beta=0.2, ngb_size=6)
+        St.vm_step()
+        Ss = Segmentation(data * (sc if nch > 1 else sc[0]), mask=mask, ppm=ppm.copy(), beta=0.2, ngb_size=6)
+        Ss.vm_step()
+        for i in range(K):
+            if pops[i] > 0 and (np.max(np.abs(St.mu[i] - S.mu[i] - off)) > 1e-10 or np.max(np.abs(St.sigma[i] - S.sigma[i])) > 1e-9):
+                ck.fail("vm_step/translation-equivariance/small-offset", "class %d: data + %s gives mean %s (was %s) covariance %s (was %s)" % (
+                    i, off.tolist(), St.mu[i].tolist(), S.mu[i].tolist(), St.sigma[i].tolist(), S.sigma[i].tolist()), dict(rep, cls=i, offset=off.tolist()))
+            if not (np.allclose(Ss.mu[i], S.mu[i] * sc, rtol=1e-13, atol=0) and np.allclose(Ss.sigma[i], S.sigma[i] * np.outer(sc, sc), rtol=1e-13, atol=0)):
+                ck.fail("vm_step/per-channel-scaling-equivariance/power-of-two", "class %d: data * %s gives mean %s (was %s) covariance %s (was %s)" % (
+                    i, sc.tolist(), Ss.mu[i].tolist(), S.mu[i].tolist(), Ss.sigma[i].tolist(), S.sigma[i].tolist()), dict(rep, cls=i, scale=sc.tolist()))
+        # relabelling the classes permutes the fitted parameters; frozen classes keep theirs
+        perm = rng.permutation(K)
+        Sp = Segmentation(data, mask=mask, ppm=ppm[..., perm].copy(), beta=0.2, ngb_size=6)
+        Sp.vm_step()
+        if not (np.array_equal(Sp.mu, S.mu[perm]) and np.array_equal(Sp.sigma, S.sigma[perm])):
+            ck.fail("vm_step/relabelling-not-a-permutation", "classes relabelled by %s: fitted parameters are not the permuted ones" % perm.tolist(), dict(rep, perm=perm.tolist()))
+        if K > 1:
+            Sf = Segmentation(data, mask=mask, ppm=ppm.copy(), beta=0.2, ngb_size=6)
+            Sf.vm_step(freeze=(0,))
+            if not (np.all(Sf.mu[0] == 0) and np.all(Sf.sigma[0] == 0) and np.array_equal(Sf.mu[1:], S.mu[1:]) and np.array_equal(Sf.sigma[1:], S.sigma[1:])):
+                ck.fail("vm_step/freeze", "vm_step(freeze=(0,)) changed the frozen class or fitted the others differently", rep)
+        # normalized_external_field with the fitted parameters, whole matrix, exp oracle at the exact per-voxel shifted arguments
+        if nch == 1 and ci % 2 == 0 and np.all(S.sigma.ravel() > 0):
+            if ci % 4 == 0:
+                S.data[0, 0] += 64.0 * float(np.sqrt(S.sigma.max()))          # an outlier w.r.t. every class
+            with np.errstate(all="ignore"):
+                lef = S.log_external_field()
+                nef = S.normalized_external_field()
+            tbl = []
+            for r in lef:
+                mx = max(fl(r))
+                tbl += [(a - mx, math.exp(float(a - mx))) for a in fl(r)]
+            terms.append("qmat_near %s (nef_matrix (qlookup %s) %s) %s" % (
+                cq(tol), ctbl(tbl), cqmat_q(lef), cqmat_q(np.nan_to_num(nef, nan=-1.0, posinf=-1.0, neginf=-1.0))))
+            meta.append(("nef-matrix", dict(rep, lef=lef.tolist())))
+            if not (finite(nef) and np.max(np.abs(nef.sum(1) - 1)) < 1e-12 and nef.min() >= 0):
+                ck.fail("nef/row-sum/after-vm_step", "normalized_external_field with fitted parameters: rows not on the simplex: %s" % nef.tolist(), dict(rep, lef=lef.tolist()))
+    if ck.build is not None and ck.build.ok:
+        res = ck.coq_bools(HDR_SEG, terms, shard=150, name="segfit")
+        ck.cov["traces_validated_against_impl"] += len(res)
+        for ok, (kind, rep) in zip(res, meta):
+            if not ok:
+                ck.fail("segfit-model-vs-impl/%s" % kind, "Coq model (%s) disagrees with the implementation" % kind, rep)
+    ck.section("segfit", cases=N, model_terms=len(terms))
+
+
 def run(ck):
     ck.cov["rule"] = (
         "mrf: random grids 1..3^3 (thorough: up to 4), K 1..3, masks, point orders, U in {Potts, symmetric int, asymmetric int}, "
@@ -1668,7 +1817,7 @@ def run(ck):
     ck.coq_build()
     ck.overlay()
     import time
-    for fn in (mrf, posteriors, gauss, bgmm_helpers, brainseg, lifecycle, magnitudes):
+    for fn in (mrf, posteriors, gauss, bgmm_helpers, brainseg, lifecycle, magnitudes, segfit):
         t0 = time.time()
         fn(ck)
         ck.section(fn.__name__, wall_s=round(time.time() - t0, 1))
